@@ -666,7 +666,8 @@ func main() {
 	out := flag.String("out", "", "output .v file")
 	side := flag.String("jsonl", "", "output side file")
 	seed := flag.Int64("seed", 1, "PRNG seed")
-	stream := flag.String("stream", "exh", "exh | explicit")
+	stream := flag.String("stream", "exh", "exh | explicit | general")
+	ngen := flag.Int("general", 300, "general: number of cases")
 	lo := flag.Int64("lo", 0, "exh: first graph index")
 	hi := flag.Int64("hi", 0, "exh: one past the last graph index")
 	sample := flag.Int("sample", 0, "exh: number of seeded sample indices instead of a range")
@@ -699,6 +700,18 @@ func main() {
 		}
 		must(json.Unmarshal(wrap.Case, &probe))
 		var cs []*Case
+		if probe.Stream == "general" {
+			var c GCase
+			must(json.Unmarshal(wrap.Case, &c))
+			runGeneral(&c)
+			js, _ := json.Marshal(c)
+			fmt.Printf("implementation: %s\n", js)
+			t := &nameTable{ids: map[string]string{}}
+			term := coqGCase(t, &c)
+			fmt.Printf("coq-general-defs: %s\n", strings.ReplaceAll(strings.Join(t.defs, ""), "\n", " "))
+			fmt.Printf("coq-general-case: %s\n", strings.ReplaceAll(term, "\n", " "))
+			return
+		}
 		if probe.Stream == "exh" {
 			_, cs = runGraph(probe.Idx)
 		} else {
@@ -791,6 +804,34 @@ func main() {
 				"Definition boundary_count := Eval vm_compute in [fold_right (fun x a => xcase_boundary_count x + a) 0 xcases].\nPrint boundary_count.\n")
 		summary = map[string]any{"stream": "exh", "graphs": len(idxs), "evaluations": evals, "symlink_start_queries": symStart,
 			"distinct_nontrivial": len(distinct), "kind_histogram": kindHist, "total_graphs": total}
+	} else if *stream == "general" {
+		r := rand.New(rand.NewSource(*seed + 7919))
+		cases := genGeneral(r, *ngen)
+		distinct := map[[32]byte]struct{}{}
+		evals, unstable := 0, 0
+		for _, c := range cases {
+			runGeneral(c)
+			must(enc.Encode(c))
+			unstable += c.Unstable
+			isLink := map[string]bool{}
+			for _, l := range c.Layers {
+				for _, e := range l {
+					if e.Kind == "sym" {
+						isLink[e.Name] = true
+					}
+				}
+			}
+			js, _ := json.Marshal([]any{c.Layers, c.Depth})
+			for _, o := range c.Obs {
+				evals += 3
+				if isLink[strings.TrimPrefix(o.Name, "/")] {
+					distinct[sha256.Sum256([]byte(fmt.Sprintf("%s|%d|%s", js, o.View, o.Name)))] = struct{}{}
+				}
+			}
+		}
+		files = writeGeneralShards(*out, cases, *per)
+		summary = map[string]any{"stream": "general", "cases": len(cases), "evaluations": evals * 3, "distinct_nontrivial": len(distinct),
+			"streams": map[string]int{"general": len(cases)}, "unstable_answers": unstable, "passes": 3}
 	} else {
 		r := rand.New(rand.NewSource(*seed))
 		var cases []*Case
